@@ -312,6 +312,10 @@ impl<'t> DocGen<'t> {
                 " as \"{}\"",
                 self.t.pick(&[
                     "my-name",
+                    "naïve",
+                    "ключ-b",
+                    "€uro",
+                    "a😀b",
                     "a",
                     "b",
                     "f",
@@ -399,7 +403,18 @@ impl<'t> DocGen<'t> {
         let lib = library();
         // only components (not the WIT packages at the end of the library)
         let comps = crate::corpus::component_indices();
-        let li = comps[self.t.index(comps.len())];
+        // half of the time pick from the components that share the foo:shared semver tracks
+        // (1.0.0 / 1.1.0 / 1.2.0), so that three versions of one interface meet in one document
+        const TRACK: &[&str] = &[
+            "test:logger", "test:logger11", "test:store", "test:app", "test:app11", "test:mixer",
+            "test:nav", "test:navimpl", "test:conflict",
+        ];
+        let li = if self.t.chance(1, 2) {
+            let track: Vec<usize> = comps.iter().copied().filter(|i| TRACK.contains(&lib[*i].name)).collect();
+            track[self.t.index(track.len())]
+        } else {
+            comps[self.t.index(comps.len())]
+        };
         let p = &lib[li];
         let n = self.fresh("inst");
         let mut args: Vec<String> = Vec::new();
@@ -421,6 +436,17 @@ impl<'t> DocGen<'t> {
         if !self.instances.is_empty() && self.t.chance(1, 4) {
             let (pn, _) = &self.instances[self.t.index(self.instances.len())];
             args.push(format!("...{pn}"));
+        }
+        // arguments named by identifier (the name is matched against the last segment of the
+        // package's import names)
+        if !self.others.is_empty() && self.t.chance(1, 4) {
+            let ident = *self.t.pick(&["dep", "plain", "c", "log", "clock", "types", "f", "x"]);
+            let o = self.others[self.t.index(self.others.len())].clone();
+            if self.t.chance(1, 2) {
+                args.push(format!("{ident}: {o}"));
+            } else {
+                args.push(o);
+            }
         }
         if self.wrong() {
             args.push("bogus: missing-name".into());
@@ -448,8 +474,8 @@ impl<'t> DocGen<'t> {
         let e = &p.exports[self.t.index(p.exports.len())];
         let n = self.fresh("acc");
         if self.wrong() {
-            self.out
-                .push_str(&format!("let {n} = {inst}[\"not-an-export\"];\n"));
+            let bad = *self.t.pick(&["not-an-export", "нет", "é", "日本語/x@1.0.0"]);
+            self.out.push_str(&format!("let {n} = {inst}[\"{bad}\"];\n"));
         } else {
             self.out.push_str(&format!("let {n} = {inst}[\"{e}\"];\n"));
         }
@@ -518,6 +544,10 @@ pub fn gen_doc(t: &mut Tape, max_statements: u64) -> DocCase {
         .push_str(&format!("package test:gen{version}{targets};\n\n"));
     let n = g.t.range(1, max_statements.max(1));
     for _ in 0..n {
+        if g.t.chance(1, 12) {
+            let c = *g.t.pick(&["// déjà vu — ünïcödé\n", "/// doc: 日本語 😀\n", "/* block ∑ comment */\n"]);
+            g.out.push_str(c);
+        }
         let pick = g.t.draw(20);
         match family {
             0 => match pick {
